@@ -24,7 +24,10 @@ PY
 if [ "$1" != "nocorpus" ]; then
   out=$(python3 tools/eval_corpus.py all 2>&1 | tail -3); echo "$out"
   echo "$out" | grep -q "raising alarms: \[\]$" || rc=1
-  echo "$out" | grep -q "missed: \[\]$" || rc=1
+  # seeded changes that no check reports yet are listed in seeded/KNOWN_MISSES.txt (DESIGN 11.12); anything else missed fails
+  miss=$(echo "$out" | sed -n "s/.*missed: \[\(.*\)\]$/\1/p" | tr -d "' " | tr ',' '\n' | grep -v '^$' | sort | tr '\n' ' ')
+  known=$(sort seeded/KNOWN_MISSES.txt | tr '\n' ' ')
+  [ "$miss" = "$known" ] || { echo "missed seeds differ from seeded/KNOWN_MISSES.txt: $miss"; rc=1; }
   echo "$out" | grep -q "expected rule missing for: \[\] ; benign mutants raising alarms: \[\]$" || rc=1
 fi
 echo "regress rc=$rc"
